@@ -43,6 +43,11 @@ goalign split -i align.phylip --partition partition.txt
 			io.LogError(err)
 			return
 		}
+		if align == nil {
+			err = fmt.Errorf("no alignment in the input file")
+			io.LogError(err)
+			return
+		}
 
 		if splitpartitionstr != "none" {
 			if splitpartition, err = parsePartition(splitpartitionstr, align.Length()); err != nil {
